@@ -83,7 +83,7 @@ fn mk_handle(a: u64, d: u64, with_writer: bool) -> LoggerHandle {
     let primary = PrimaryWriter::multi(crate::Duplicate::None, crate::Duplicate::None, false, dummy_format, dummy_format, None, None);
     let mut others: HashMap<String, Box<dyn LogWriter>> = HashMap::new();
     if with_writer {
-        others.insert("A".to_string(), Box::new(RecW));
+        others.push_unique("A".to_string(), Box::new(RecW));
     }
     LoggerHandle::new(Arc::new(RwLock::new(spec_of(a, d))), Arc::new(primary), Arc::new(others))
 }
